@@ -368,10 +368,11 @@ lys_precompile_uses_augments_refines(struct lysc_ctx *ctx, struct lysp_node_uses
         /* parse the nodeid */
         LY_CHECK_GOTO(ret = lys_nodeid_mod_check(ctx, uses_p->refines[u].nodeid, 0, &mod_set, &nodeid, NULL), cleanup);
 
-        /* try to find the node in already compiled refines */
+        /* try to find the node in already compiled refines of this uses */
         rfn = NULL;
         for (i = 0; i < ctx->uses_rfns.count; ++i) {
-            if (lys_abs_schema_nodeid_match(ctx->ctx, nodeid, ctx->pmod, ((struct lysc_refine *)ctx->uses_rfns.objs[i])->nodeid,
+            if ((((struct lysc_refine *)ctx->uses_rfns.objs[i])->uses_p == uses_p) &&
+                    lys_abs_schema_nodeid_match(ctx->ctx, nodeid, ctx->pmod, ((struct lysc_refine *)ctx->uses_rfns.objs[i])->nodeid,
                     ctx->pmod)) {
                 rfn = ctx->uses_rfns.objs[i];
                 break;
@@ -1838,13 +1839,15 @@ lys_compile_node_deviations_refines(struct lysc_ctx *ctx, const struct lysp_node
     *dev_pnode = NULL;
     *not_supported = 0;
 
-    for (i = 0; i < ctx->uses_rfns.count; ) {
+    /* refines of nested (inner) uses were stored later but must be applied first so that the refines
+     * of the outer uses, which refine the result, override them */
+    for (i = ctx->uses_rfns.count; i > 0; ) {
+        --i;
         rfn = ctx->uses_rfns.objs[i];
 
         if (!lysp_schema_nodeid_match(rfn->nodeid, rfn->nodeid_pmod, NULL, rfn->nodeid_ctx_node, parent, pnode,
                 ctx->cur_mod, ctx->ext)) {
             /* not our target node */
-            ++i;
             continue;
         }
 
@@ -1858,9 +1861,9 @@ lys_compile_node_deviations_refines(struct lysc_ctx *ctx, const struct lysp_node
             LY_CHECK_GOTO(ret = lys_apply_refine(ctx, rfn->rfns[u], rfn->nodeid_pmod, *dev_pnode), cleanup);
         }
 
-        /* refine was applied, remove it */
+        /* refine was applied, remove it (keeping the order of the remaining ones) */
         lysc_refine_free(ctx->ctx, rfn);
-        ly_set_rm_index(&ctx->uses_rfns, i, NULL);
+        ly_set_rm_index_ordered(&ctx->uses_rfns, i, NULL);
 
         /* refines use relative paths so more may apply to a single node */
     }
@@ -2085,14 +2088,14 @@ lys_compile_node_augments(struct lysc_ctx *ctx, struct lysc_node *node)
     char orig_path[LYSC_CTX_BUFSIZE];
     struct lysc_augment *aug;
 
-    /* uses augments */
-    for (i = 0; i < ctx->uses_augs.count; ) {
+    /* uses augments, the ones of nested (inner) uses were stored later but are applied first */
+    for (i = ctx->uses_augs.count; i > 0; ) {
+        --i;
         aug = ctx->uses_augs.objs[i];
 
         if (!lysp_schema_nodeid_match(aug->nodeid, orig_mod->parsed, aug->ext, aug->nodeid_ctx_node, node, NULL, NULL,
                 ctx->ext)) {
             /* not our target node */
-            ++i;
             continue;
         }
 
@@ -2107,11 +2110,12 @@ lys_compile_node_augments(struct lysc_ctx *ctx, struct lysc_node *node)
         lysc_update_path(ctx, NULL, NULL);
         LY_CHECK_GOTO(ret, cleanup);
 
-        /* augment was applied, remove it (index and the whole set may have changed because other augments
-         * could have been applied) */
-        ly_set_rm(&ctx->uses_augs, aug, NULL);
+        /* augment was applied, remove it keeping the order of the others (index and the whole set may have changed
+         * because other augments could have been applied) */
+        for (i = 0; ctx->uses_augs.objs[i] != aug; ++i) {}
+        ly_set_rm_index_ordered(&ctx->uses_augs, i, NULL);
         lysc_augment_free(ctx->ctx, aug);
-        i = 0;
+        i = ctx->uses_augs.count;
     }
 
     /* top-level augments */
